@@ -74,6 +74,21 @@ def symbolic(P, h):
     return steps
 
 
+def check_sizes(P):
+    """size_of table of the interpreter vs the real compiler (native probe); returns list of mismatches"""
+    outs, err = replay.run_scenarios('scenario subj\nsizes\nend\n')
+    I = Interp(P); ctx = Ctx([]); bad = []
+    names = {'Result<u64,u8>': 'std::result::Result<u64, u8>', 'Option<u64>': 'std::option::Option<u64>', 'Option<usize>': 'std::option::Option<usize>', '(u64,u64)': '(u64, u64)', '(u64,u64,u64)': '(u64, u64, u64)',
+             'Vec<u8>': 'std::vec::Vec<u8>', 'Box<u8>': 'std::boxed::Box<u8>', 'Option<String>': 'std::option::Option<std::string::String>'}
+    for l in (outs[0] if outs else []):
+        if not l.startswith('size '): continue
+        t, v = l[5:].split(' = ')
+        try: mine = I.size_of(ctx, names.get(t, t))
+        except Unsupported: continue
+        if mine != int(v): bad.append((t, int(v), mine))
+    return bad
+
+
 def run(P, ntraces=30, seed=0, verbose=False):
     rnd = random.Random(1000 + seed)
     hist = []
@@ -83,6 +98,7 @@ def run(P, ntraces=30, seed=0, verbose=False):
         hist.append(gen_history(rnd, f, p))
     nat = native(hist)
     okc = 0; mism = []
+    for t, v, mine in check_sizes(P): mism.append((dict(size_of=t, native=v, interpreter=mine), [], []))
     for h, ns in zip(hist, nat):
         try:
             ss = symbolic(P, h)
